@@ -30,8 +30,9 @@ RULE = ("texts of the v14 mania dialect: K in 1..18, x anywhere inside a column'
         "of both signs; malformed lines/texts compared on the error class. non-trivial = at least one object or timing line "
         "off the defaults (x off the column centre, fractional/negative time, ':' in a value, malformed field)")
 ASSUMPTIONS = [
-    "float rendering (repr, :g) and unidecode are parameters of the model: the harness renders the model's tokens with "
-    "Python's own repr/format/unidecode and asserts float(repr(x)) == x on every number it sees",
+    "float rendering (repr) and unidecode are parameters of the model: the harness renders the model's tokens with "
+    "Python's own repr/unidecode and asserts float(repr(x)) == x on every number it sees; integral numeric metadata is "
+    "rendered by the model itself (_num)",
     "int()/float() are modelled on the grammar ws* [+-]? digits ... (no '_' separators, no inf/nan, ASCII digits); "
     "generators stay inside it",
     "strings travel as JSON: characters outside the BMP are not generated",
@@ -40,9 +41,8 @@ ASSUMPTIONS = [
     "in-memory charts: text attributes carry no leading/trailing white space or line breaks, file names no ',' ':'; "
     "tags are non-empty and blank-free (otherwise `quantize` says what comes back)",
 ]
-TRUSTED_EXTRA = ["Python repr/format(:g)/unidecode as instantiation of the model's Render parameter"]
+TRUSTED_EXTRA = ["Python repr/unidecode as instantiation of the model's Render parameter"]
 
-KF_G = "D101"
 
 
 def _imports():
@@ -395,8 +395,8 @@ def gen_chart(rng, tier, small=False):
                     hp_drain_rate=rng.choice([7.5, 5.0, 0.0, 10.0]), overall_difficulty=rng.choice([7.5, 8.0, 9.3]),
                     approach_rate=rng.choice([5.0, 9.0]), slider_multiplier=rng.choice([1.4, 1.0, 3.6]),
                     slider_tick_rate=rng.choice([1, 2, 0.5]))
-    if rng.random() < 0.06:
-        # outside the domain where ':g' is exact (known finding D101)
+    if rng.random() < 0.15:
+        # numbers that ':g' (6 significant digits) would not keep — the witness domain of the repaired finding D30
         key = rng.choice(["audio_lead_in", "hp_drain_rate", "overall_difficulty", "distance_spacing", "timeline_zoom"])
         meta[key] = rng.choice([1000000, 1234567, 20000000]) if key == "audio_lead_in" else rng.choice([7.1234567, 1 / 3, 0.12345678])
     return dict(meta=meta, bpms=bpms, svs=svs, hits=hits, holds=holds)
@@ -811,8 +811,6 @@ def render(tok_lines):
                 s += t["s"]
             elif "r" in t:
                 s += repr(float(F(t["r"])))
-            elif "g" in t:
-                s += format(float(F(t["g"])), "g")
             else:
                 s += unidecode(t["u"])
         out.append(s)
@@ -820,7 +818,7 @@ def render(tok_lines):
 
 
 def g_lossy(meta):
-    """is some ':g'-rendered number outside the domain where the rendering reads back exactly? (D101)"""
+    """would ':g' (the format before the repair of D30) have lost this number?  (evidence tag only)"""
     for key in G_KEYS:
         v = meta[key]
         txt = format(v, "g")
@@ -1076,10 +1074,10 @@ def run_write(case, drv, cycle=False):
     # (S) times moved by less than 1 ms, columns kept
     if ok and back[0] == "ok":
         ok &= moved_less_than_1ms(c_r, ch, back[1])
-    kf = KF_G if (not ok and lossy) else None
+    kf = None
     n = len(ch["hits"]) + len(ch["holds"]) + len(ch["bpms"]) + len(ch["svs"])
     tags += ["K%d" % int(ch["meta"]["circle_size"]), "n%d" % min(3, n)] + (["g-lossy"] if lossy else [])
-    res = dict(claim=case["claim"], ok=ok, agree=agree, dom=not lossy, kf=kf, tags=tags, nontrivial=n > 0, boundary=boundary,
+    res = dict(claim=case["claim"], ok=ok, agree=agree, dom=True, kf=kf, tags=tags, nontrivial=n > 0, boundary=boundary,
                maxdev=max(c_s.maxdev, c_r.maxdev),
                detail={} if (ok and agree) else dict(why_write=c_w.why[:4], why_spec=c_s.why[:6], why_read=c_r.why[:6]))
     if cycle:
@@ -1194,7 +1192,7 @@ def run_cycle(case, drv):
             c.why.append("text of generation 3 differs from generation 2")
     first["ok"] = ok
     if not ok:
-        first["kf"] = KF_G if g_lossy(case["chart"]["meta"]) else None
+        first["kf"] = None
         first["detail"] = dict(why=c.why[:6])
     first["tags"] = first.get("tags", []) + ["cycle"]
     return first
